@@ -75,6 +75,12 @@ func evalProp(
 	prop, ok := object.FindPropAlongProtos(recv, propHash)
 
 	if ok {
+		// NOTE: err prop (like abstract props `_` in Either) is shared by all programs.
+		// Copy it not to leave stacktrace of this evaluation in the shared object
+		if err, ok := prop.(*object.PanErr); ok {
+			copied := *err
+			return &copied, false
+		}
 		return prop, false
 	}
 
